@@ -64,6 +64,11 @@ def lattice():
         ca_eff = ca if KINDS[ka] == "KFloat" else True
         tasks.append({"what": "pow_op", "kind": None, "ka": ka, "ca": ca, "cb": cb, "pval": pval, "track": True, "arg": None})
         models.append((1, "KFloat", True, None, [ca_eff, cb]))
+    # multi-argument atleast_kd (results that already have enough dimensions included): a view-capable operation per argument
+    for k, which, ka, ca, arg in itertools.product((1, 2, 3), (0, 1), ["float64", "float32", "int64"], (True, False), ARGS):
+        ca_eff = ca if KINDS[ka] == "KFloat" else True
+        tasks.append({"what": "atleast_multi", "kind": None, "k": k, "which": which, "ka": ka, "ca": ca, "track": True, "arg": arg})
+        models.append((1, KINDS[ka], True, arg, [ca_eff]))
     # out=<plain ndarray>: an ordinary operation whose result lands in the caller's array -- the op rule applies, incl. an explicit constant=
     for what in ("out_array_binary", "out_array_unary", "out_array_where"):
         for ka, ca, arg in itertools.product(["float64", "float32", "int64"], (True, False), ARGS):
@@ -123,6 +128,16 @@ def run(rep, work, tier, seed, props, replay=None):
     res = []
     for r in run_impl_parallel("c10_impl.py", [{"tasks": p} for p in parts]):
         res.extend(r["results"])
+    # constant aliases of a non-constant tensor's own array, used next to it in one operation (implementation oracle)
+    alias_tasks = [{"what": "alias_const", "fn": fn, "alias": al, "order": o} for fn in ("multiply", "add", "einsum_i,i->", "einsum_ij,ij->ij", "einsum_ij,ij->", "matmul", "maximum",
+                                                                                      "multiply_sequence", "stack", "where")
+                   for al in ("astensor", "tensor_nocopy", "view") for o in (0, 1)]
+    alias_res = []
+    for r in run_impl_parallel("c10_impl.py", [{"tasks": alias_tasks}]):
+        alias_res.extend(r["results"])
+    alias_bad = [(t, r) for t, r in zip(alias_tasks, alias_res) if r != "ok"]
+    for t, r in alias_bad[:4]:
+        rep.violation({"kind": "a constant tensor aliasing a non-constant tensor's array changes that tensor's gradient: %s(%s) -- %s" % (t["fn"], t["alias"], r), "alias_task": t})
     terms = [coq_ccase(m, g) for m, g in zip(models, res)]
     hdr = "From Coq Require Import List. Import ListNotations.\nFrom MG Require Import Model.ConstRule Model.ConstCorr.\n"
     lat_bad = []
@@ -226,6 +241,7 @@ def run(rep, work, tier, seed, props, replay=None):
     rep.coverage.update({
         "evaluations": len(tasks) + len(kb) + len(variants) + len(sweep),
         "operation_sweep": {"entries_x_patterns": len(sweep), "skipped": sweep_skipped, "messages": sweep_bad},
+        "constant_alias_cells": len(alias_tasks), "constant_alias_failures": len(alias_bad),
         "distinct_nontrivial": len(nt) + len(set(json.dumps(t, sort_keys=True) for t in tasks if t["arg"] is not None)),
         "rule": "lattice: every cell of {tensor, Tensor, astensor} x 9 dtypes x tracking x constant in {None,True,False}; {add,multiply,maximum} x 4x4 operand dtypes x operand flags x tracking x constant; "
                 "reshape/sum/copy/astype likewise (complete).  Programs: C01 generator with constant leaves, int leaves and constant= overrides, 1-2 backward calls; non-trivial program = mixed flags with >= 1 override; "
